@@ -5,7 +5,7 @@
 (*   in.world  W, head = [ext, series], blocks = <<[ext, series], ...>>;   *)
 (*             label sets are sequences of <<name, value>> pairs           *)
 (*   in.req    ms (matchers), rl (replica labels to drop), mint, maxt      *)
-(*   tsdb / bucket / proxy                                                 *)
+(*   tsdb / bucket / proxy / prom (sidecar) / recv (receiver)              *)
 (*             [kind: "ok"|"error"|"panic", code, ls: one label-pair       *)
 (*              sequence per frame in arrival order, nc, warn]             *)
 (* Every store's answer is judged with the property-level operator         *)
@@ -15,12 +15,18 @@
 (***************************************************************************)
 EXTENDS TraceLib, StoreAPIs
 
-Kinds == <<"tsdb", "bucket", "proxy">>
+Kinds == <<"tsdb", "bucket", "proxy", "prom", "recv">>
+NK == 5
 
 SeriesOf(j) == { [l |-> LsOf(s.l), slots |-> SaRange(s.slots)] : s \in SaRange(j.series) }
 SourceOf(j) == [ext |-> LsOf(j.ext), series |-> SeriesOf(j)]
 HeadOf(e) == SourceOf(e.in.world.head)
 BlocksOf(e) == { SourceOf(b) : b \in SaRange(e.in.world.blocks) }
+(* phase 2: receiver tenants (external labels = the head's, overridden by tlabel = tenant id) *)
+TenantsOf(e) == { [ext |-> TenantExt(LsOf(e.in.world.head.ext), e.in.world.recv.tlabel, t.id), series |-> SeriesOf(t)] :
+                    t \in SaRange(e.in.world.recv.tenants) }
+WorldOf(e) == [W |-> e.in.world.W, head |-> HeadOf(e), blocks |-> BlocksOf(e), tenants |-> TenantsOf(e)]
+OptOf(e) == [skip |-> e.in.cfg.skip, samples |-> e.in.cfg.samples, pmatch |-> ~e.in.cfg.promold]
 ReqOf(e) == [ms |-> SaRange(e.in.req.ms), rl |-> SaRange(e.in.req.rl), mint |-> e.in.req.mint, maxt |-> e.in.req.maxt]
 
 Tag(kind, clauses) == { kind \o ":" \o c : c \in clauses }
@@ -28,21 +34,21 @@ Tag(kind, clauses) == { kind \o ":" \o c : c \in clauses }
 JudgeStore(e, kind) ==
     LET o == e[kind]
         req == ReqOf(e)
-    IN Tag(kind, C08Clauses(Sources(kind, HeadOf(e), BlocksOf(e)), req.ms, req.rl, o.ls)
+    IN Tag(kind, C08Clauses(SourcesW(kind, WorldOf(e)), req.ms, req.rl, o.ls)
                  \cup (IF o.kind = "panic" THEN {"store-panicked"} ELSE {}))
 
-Judge(e) == UNION { JudgeStore(e, Kinds[i]) : i \in 1..3 }
+Judge(e) == UNION { JudgeStore(e, Kinds[i]) : i \in 1..NK }
 
 (* Model conformance (never a verdict): the algorithm-level model predicts exactly which label  *)
 (* sets come back and whether the call is refused as invalid.                                    *)
 DriftStore(e, kind) ==
     LET o == e[kind]
-        p == AlgoSeries(kind, e.in.world.W, HeadOf(e), BlocksOf(e), ReqOf(e))
+        p == AlgoSeriesW(kind, WorldOf(e), ReqOf(e), OptOf(e))
     IN o.kind # "panic" /\
        ~( /\ (p.kind = "invalid") = (o.code = "InvalidArgument")
           /\ (\A i \in DOMAIN o.ls : NoDupNames(o.ls[i]))
           /\ { LsOf(o.ls[i]) : i \in DOMAIN o.ls } = p.out )
-Drift(e) == \E i \in 1..3 : DriftStore(e, Kinds[i])
+Drift(e) == \E i \in 1..NK : DriftStore(e, Kinds[i])
 
 VARIABLE l
 TraceInit == l = 1
